@@ -366,8 +366,14 @@ impl State {
                 self.mps.real.remove(&column_name);
                 self.mps.binary.insert(column_name);
             }
-            //   FR    free variable
-            "FR" | "PL" => { /* do nothing */ }
+            //   FR    free variable      -inf < x < +inf
+            "FR" => {
+                self.mps
+                    .l
+                    .insert(ColumnName(fields[2].to_string()), f64::NEG_INFINITY);
+            }
+            //   PL    upper bound +inf   (default)
+            "PL" => { /* do nothing */ }
             //   UI    upper (positive) integer
             "UI" => {
                 let column_name = ColumnName(fields[2].to_string());
